@@ -40,7 +40,8 @@ class Spec:
 
 
 def input_prelude(spec: Spec, fixed_len):
-    n = spec.n
+    # a partitioned harness (one concrete length) draws exactly that many bytes
+    n = spec.n if fixed_len is None else fixed_len
     fl = f"Some({fixed_len})" if fixed_len is not None else "None"
     s = f"    let (bytes, len) = crate::vrt::draw_input::<{n}, S>(src, {fl});\n"
     s += spec.pre_draw
@@ -136,12 +137,13 @@ def jobs_for(spec: Spec, timeout=900, mem_gb=14, weight=1, required=True, role=N
         return jobs, info
     lr_args = []
     for (h, u, call) in entries:
+        nbytes = int(h.rsplit("len", 1)[1]) if spec.partition else spec.n
         bound = {"input_bytes": (f"exactly {h.rsplit('len', 1)[1]}" if spec.partition else f"<={spec.n}"),
                  "alphabet": "ASCII" if spec.ascii_only else (spec.alphabet or "all UTF-8"),
                  "unwind": u, "grammar": info["grammar"]}
         jobs.append(kani.Job(jid=h, crate=d, harness=h, desc=(spec.note + " | " if spec.note else "") + f"rule {spec.root} of: " + info["grammar"].replace("\n", " "),
                              bound=bound, timeout=timeout, mem_gb=mem_gb, weight=weight, required=required,
-                             meta={"role": role or spec.name, "nbytes": spec.n, "spec": spec.name,
+                             meta={"role": role or spec.name, "nbytes": nbytes, "spec": spec.name,
                                    "unwindset": [(f"{len('parse_' + r)}parse_{r}", k) for r, k in spec.leftrec_unwind.items()]
                                    + [(f"{len('ref_' + r)}ref_{r}", k) for r, k in spec.leftrec_unwind.items()],
                                    "generated_sha": info.get("generated_sha"),
